@@ -147,8 +147,8 @@ func runC04Concurrent(c C04Case, cs *kit.CaseStats) error {
 }
 
 var c04ConcProp = kit.Prop[C04Case]{
-	ID:   "C04",
-	Rule: "concurrent family: the C04 history with 2..4 pollers in their own goroutines (chunk sizes 1, 1, 2, 3) against one submitting goroutine; schedule-independent assertions only (contiguous path of at most max updates, shadow ledger equal to the reference ledger of the index reached, notification count = tip changes, last notification = final tip, every subscriber reaches the tip afterwards); run under the race detector in the thorough tier.",
+	ID:          "C04",
+	Rule:        "concurrent family: the C04 history with 2..4 pollers in their own goroutines (chunk sizes 1, 1, 2, 3) against one submitting goroutine; schedule-independent assertions only (contiguous path of at most max updates, shadow ledger equal to the reference ledger of the index reached, notification count = tip changes, last notification = final tip, every subscriber reaches the tip afterwards); run under the race detector in the thorough tier.",
 	Assumptions: []string{"interleavings are whatever the Go runtime produces; rapid controls the history, not the schedule"},
 	Gen:         genC04,
 	Run:         runC04Concurrent,
